@@ -14,7 +14,7 @@ from jv.props import common as C
 
 ID = "C07"
 LEVEL = "exploration"
-BUDGET = {"quick": 1600, "thorough": 24000}
+BUDGET = {"quick": 2600, "thorough": 32000}
 EXHAUSTIVE = {"quick": False, "thorough": False}
 RULE = (
     "two parts. (1) enumerated: the first submitter round of EVERY configuration in a finite grid -- quick: n<=2 jobs "
